@@ -179,6 +179,12 @@ fn transform(
     operands: &mut Vec<Coor4D>,
     ctx: &Plain,
 ) -> Result<usize, geodesy::Error> {
+    // Nothing to do for an empty batch (empty input, or an input of
+    // exactly a whole number of batches)
+    if operands.is_empty() {
+        return Ok(0);
+    }
+
     let output_dimension = options.dimension.unwrap_or(number_of_dimensions_in_input);
 
     // When roundtripping, we must keep a copy of the input to be able
